@@ -75,7 +75,7 @@ def run_pair(case, bus, ex):
     U = lambda lo, hi: float(rng.uniform(lo, hi))
     sc = (L / (2 * np.pi))
     nu, c, xi, zeta = U(0.01, 0.1) * sc ** 2, U(-2, 2) * sc, U(-1, 1) * 1e-2 * sc ** 3, U(1e-5, 1e-4) * sc ** 4
-    b = U(0.3, 1.5)
+    b = U(0.3, 1.5) * float(rng.choice([-1.0, 1.0]))          # both signs of every nonlinear scale
     orders = [0, 1, 2, 3, 4]
     order = int(rng.choice(orders))
     sc_flag, cons = bool(rng.integers(0, 2)), bool(rng.integers(0, 2))
